@@ -211,6 +211,13 @@ def restart_and_compare(h):
         fr = mengine.cengine._exc_site(sys.exc_info()[2])
         out['violations'].append(('load-model-failed:%s@%s' % (type(err).__name__, fr.name), str(err)))
         return out
+    return compare_loaded(d, m, ref, old, out)
+
+
+def compare_loaded(d, m, ref, old, out=None):
+    """The C11 oracle proper: the model `m` has just been rebuilt from the store that `ref` describes."""
+    if out is None:
+        out = {'violations': [], 'healthy_entries': 0, 'unhealthy': {}, 'flags': {}}
     cell = m.cell
     recorded_anywhere = {}
     for s, (healthy, why, entries) in ref.items():
